@@ -21,6 +21,7 @@
 #include <signal.h>
 #include <time.h>
 
+#define WORKMAX (32L << 20)
 /* ------------------------------------------------------------------ tiny key=value parser */
 typedef struct { char *k[64], *v[64]; int n; } kv_t;
 static void kv_parse(char *line, kv_t *K)
@@ -54,6 +55,7 @@ static unsigned long cks_perm(const int_t *p, int n) { return p ? fnv(p, sizeof(
 static int is_perm(const int_t *p, int n)
 { int i, ok = 1; char *seen = (char *) calloc(n + 1, 1); for (i = 0; i < n; ++i) { if (p[i] < 0 || p[i] >= n || seen[p[i]]) { ok = 0; break; } seen[p[i]] = 1; } free(seen); return ok; }
 
+static void destroy_LU(void);
 static void build_dense(void)
 {
     int j, k;
@@ -66,9 +68,16 @@ static void build_dense(void)
 
 static void cmd_mat(kv_t *K)
 {
-    rng_t R; const char *gen = kv_s(K, "gen", "random"); int n = (int) kv_i(K, "n", 8), i, j, k; char *pat = 0; mat_t M;
+    rng_t R; const char *gen = kv_s(K, "gen", "random"); int n = (int) kv_i(K, "n", 8), i, j, k; char *pat = 0; mat_t M; int sing = 0;
     int vstyle = (int) kv_i(K, "vstyle", 0); const char *sc = kv_s(K, "scale", "none");
     R.s = (unsigned long) kv_i(K, "seed", 1) * 7919ul + 17;
+    if (S.have) {   /* drop the previous system */
+	destroy_LU();
+	SUPERLU_FREE(S.val); SUPERLU_FREE(S.ind); SUPERLU_FREE(S.ptr); free(S.val0); free(S.pat); free(S.Ad); S.Ad = 0;
+	Destroy_SuperMatrix_Store(&S.A);
+	SUPERLU_FREE(S.perm_c); SUPERLU_FREE(S.perm_r); SUPERLU_FREE(S.etree); SUPERLU_FREE(S.colcnt); SUPERLU_FREE(S.part); free(S.R); free(S.C);
+	S.have = 0;
+    }
     if (!strcmp(gen, "random")) pat = pat_random(n, (int) kv_i(K, "dens", 200), (int) kv_i(K, "fulldiag", 0), &R);
     else if (!strcmp(gen, "banded")) pat = pat_banded(n, (int) kv_i(K, "kl", 1), (int) kv_i(K, "ku", 1));
     else if (!strcmp(gen, "arrow")) pat = pat_arrow(n, (int) kv_i(K, "last", 1));
@@ -90,7 +99,7 @@ static void cmd_mat(kv_t *K)
 	if (f != 1.0) M.val[k] = from_lc(to_lc(M.val[k]) * (lc) f);
     }
     {   const char *zc = kv_s(K, "zc", 0);     /* exactly zero columns (explicit zeros) */
-	if (zc) { char *v = strdup(zc), *s2 = 0, *t; for (t = strtok_r(v, ",", &s2); t; t = strtok_r(0, ",", &s2)) { int c = atoi(t); if (c >= 0 && c < n) for (k = M.colptr[c]; k < M.colptr[c + 1]; ++k) M.val[k] = mk_scalar(0, 0); } free(v); }
+	if (zc) { char *v = strdup(zc), *s2 = 0, *t; sing = 1; for (t = strtok_r(v, ",", &s2); t; t = strtok_r(0, ",", &s2)) { int c = atoi(t); if (c >= 0 && c < n) for (k = M.colptr[c]; k < M.colptr[c + 1]; ++k) M.val[k] = mk_scalar(0, 0); } free(v); }
     }
     S.n = n; S.nnz = M.nnz; S.pat = pat; S.stype = !strcmp(kv_s(K, "stype", "NC"), "NR"); S.ver = 1; S.have = 1;
     if (S.stype == 0) { S.val = M.val; S.ind = M.rowind; S.ptr = M.colptr; }
@@ -109,7 +118,7 @@ static void cmd_mat(kv_t *K)
     S.R = (REAL *) malloc(sizeof(REAL) * (n + 1)); S.C = (REAL *) malloc(sizeof(REAL) * (n + 1));
     for (i = 0; i < n; ++i) { S.perm_c[i] = i; S.perm_r[i] = i; S.R[i] = 1; S.C[i] = 1; }
     S.have_pc = 1; S.haveLU = 0; S.equed = NOEQUIL;
-    vrt_log_raw("\"e\":\"Call\",\"call\":\"mat\",\"n\":%d,\"nnz\":%d,\"stype\":%d", n, S.nnz, S.stype);
+    vrt_log_raw("\"e\":\"Call\",\"call\":\"mat\",\"n\":%d,\"nnz\":%d,\"stype\":%d,\"sing\":%d,\"live\":%ld", n, S.nnz, S.stype, sing, vrt_mem_live_count());
 }
 
 /* new values on the same pattern */
@@ -158,6 +167,11 @@ static int padding_ok(const SCALAR *b, int nrhs, int ldb)
     return 1;
 }
 
+/* the caller passes the original (unscaled) values again before a new factorization */
+static void restore_values(void)
+{
+    if (S.equed != NOEQUIL) { memcpy(S.val, S.val0, sizeof(SCALAR) * S.nnz); S.equed = NOEQUIL; }
+}
 static void destroy_LU(void)
 {
     if (!S.haveLU) return;
@@ -191,6 +205,7 @@ static void cmd_gssv(kv_t *K)
     bcopy = (SCALAR *) malloc(sizeof(SCALAR) * ldb * (nrhs ? nrhs : 1)); memcpy(bcopy, b, sizeof(SCALAR) * ldb * (nrhs ? nrhs : 1));
     G(Create_Dense_Matrix)(&B, n, nrhs, b, ldb, SLU_DN, SLU_DT, SLU_GE);
     destroy_LU();
+    restore_values();
     ck[0] = fnv(S.val, sizeof(SCALAR) * S.nnz); ck[1] = fnv(S.ind, sizeof(int_t) * S.nnz); ck[2] = fnv(S.ptr, sizeof(int_t) * (n + 1));
     live0 = vrt_mem_live_count(); thr0 = vrt_thread_count(); fd0 = vrt_fd_count(); vrt_xerbla_reset();
     vrt_log_raw("\"e\":\"CallBegin\",\"call\":\"gssv\"");
@@ -226,11 +241,9 @@ static void cmd_gssv(kv_t *K)
 }
 
 #if PREC == 1 || PREC == 3
-extern float slamch_(char *);
-static REAL mach_eps(void) { return slamch_("E"); }
+static REAL mach_eps(void) { return (REAL) slamch_("E"); }     /* declared in the library headers */
 #else
-extern double dlamch_(char *);
-static REAL mach_eps(void) { return dlamch_("E"); }
+static REAL mach_eps(void) { return (REAL) dlamch_("E"); }
 #endif
 /* ------------------------------------------------------------------ expert driver */
 static trans_t tr_of(const char *s) { return s[0] == 'T' ? TRANS : s[0] == 'C' ? CONJ : NOTRANS; }
@@ -246,6 +259,7 @@ static void cmd_gssvx(kv_t *K)
     superlu_memusage_t mu; unsigned long ckv, cki, ckp, ckpr, ckpc, ckL = 0; long live0, live1; int thr0, thr1;
     SCALAR *vin = (SCALAR *) malloc(sizeof(SCALAR) * (S.nnz + 1)); equed_t eq_in = S.equed;
     memset(&mu, 0, sizeof mu);
+    if (fact != FACTORED) { restore_values(); eq_in = NOEQUIL; }
     memcpy(vin, S.val, sizeof(SCALAR) * S.nnz);
     make_rhs(nrhs, ldb, op, (unsigned long) kv_i(K, "seed", 1), &b, &Xtrue, &B0);
     if (fact == FACTORED && S.haveLU) {
@@ -257,7 +271,7 @@ static void cmd_gssvx(kv_t *K)
     G(Create_Dense_Matrix)(&B, n, nrhs, b, ldb, SLU_DN, SLU_DT, SLU_GE);
     G(Create_Dense_Matrix)(&X, n, nrhs, x, ldx, SLU_DN, SLU_DT, SLU_GE);
     if (fact != FACTORED && !refact) destroy_LU();
-    if (fact != FACTORED && !refact && lwork > 0) { free(S.work); S.work = malloc(lwork); S.lwork = lwork; }
+    if (lwork > 0) { if (lwork > WORKMAX) lwork = WORKMAX; S.lwork = lwork; }
     S.opt.nprocs = P; S.opt.fact = fact; S.opt.trans = tr_of(trs); S.opt.refact = refact ? YES : NO;
     S.opt.panel_size = sp_ienv(1); S.opt.relax = sp_ienv(2); S.opt.diag_pivot_thresh = u; S.opt.usepr = usepr ? YES : NO;
     S.opt.drop_tol = 0; S.opt.SymmetricMode = sym ? YES : NO; S.opt.PrintStat = NO;
@@ -391,6 +405,7 @@ static int run_script(const char *path, const char *out)
 {
     FILE *sf = fopen(path, "r"), *of; char *line = 0; size_t cap = 0; kv_t K;
     if (!sf) { perror(path); return 3; }
+    S.work = malloc(WORKMAX);      /* the caller's workspace, allocated before allocation tracking starts */
     vrt_log_enable(1);
     while (getline(&line, &cap, sf) > 0) {
 	if (line[0] == '#' || line[0] == '\n') continue;
